@@ -68,6 +68,9 @@ def check_base(case):
         if name != "mean_prediction" and not set(yp) <= {0, 1}:
             continue
         f = getattr(fm, name)
+        wkind = case["w_kind"]
+        if wkind in ("ndarray2d", "dataframe") and name not in ("selection_rate", "mean_prediction"):
+            wkind = "ndarray"  # sklearn's confusion_matrix accepts 1-D weights only; fairlearn's own two functions flatten columns
         a = f(_wrap(kind, yt), _wrap(kind, yp), sample_weight=_wrap(wkind, w))
         if np.ndim(a) != 0:
             raise PropertyViolation(f"{name} with weights returned a non-scalar {a!r}")
@@ -89,6 +92,8 @@ def check_base(case):
         tags.add("nt")
     if len(yt) == 1:
         tags.add("single_weighted_row")
+    if case["w_kind"] in ("ndarray2d", "dataframe") and len(set(w)) > 1:
+        tags.add("column_shaped_weights")
     return sorted(tags)
 
 
@@ -309,8 +314,8 @@ def _case(draw, reals=False, metrics=False):
 @st.composite
 def _base_case(draw):
     c = draw(_case(reals=True))
-    if c["w_kind"] == "ndarray2d":  # sklearn's confusion_matrix accepts 1-D weights only
-        c["w_kind"] = "ndarray"
+    if draw(st.integers(0, 3)) == 0:
+        c["w_kind"] = draw(st.sampled_from(["ndarray2d", "dataframe"]))  # an (n, 1) column of weights
     if draw(st.integers(0, 4)) == 0:  # a single weighted row
         for k in ("y_true", "y_pred", "groups", "w"):
             c[k] = c[k][:1]
